@@ -62,16 +62,22 @@ class _Binary(Operation):
 
 
 class AddiOp(_Binary):
+    name = "arith.addi"
+
     def sem(self, a, b):
         return bv_add(a, b, self.width) if MODE["bv"] == "all" else a + b
 
 
 class SubiOp(_Binary):
+    name = "arith.subi"
+
     def sem(self, a, b):
         return bv_sub(a, b, self.width) if MODE["bv"] == "all" else a - b
 
 
 class MuliOp(_Binary):
+    name = "arith.muli"
+
     def sem(self, a, b):
         return bv_mul(a, b, self.width) if MODE["bv"] == "all" else a * b
 
